@@ -5,8 +5,15 @@
     No proofs in this file.
 
     Decimals are raw integers scaled by 10^18 (Lib/Dec.v); uint64 / int64 conversions of the
-    roll-over test are explicit. *)
-From Coq Require Import ZArith List Bool.
+    roll-over test are explicit.
+
+    The sudo root — recipient of the strategic reserve — is part of the state ([s_root]: an ordinary
+    account or a module account named as in app/app_config.go) and is changed by MsgChangeRoot
+    ([ChangeRoot]).  The x/bank blocked-recipient table of the application wiring is a parameter [B]
+    of the model (module account names that may not receive funds); when the root is blocked the
+    last transfer of AllocatePolynomialInflation fails after mint + staking + community-pool steps
+    and the hook returns before the period roll-over. *)
+From Coq Require Import String ZArith List Bool.
 Import ListNotations.
 Require Import Nib.Lib.Dec.
 Local Open Scope Z_scope.
@@ -50,6 +57,18 @@ Definition poly_provision (p : params) (period : Z) : Z :=
 Definition provision (p : params) (period : Z) : Z :=
   if (p_epp p =? 0) || negb (p_enabled p) || (p_max p <=? period) then 0 else poly_provision p period.
 
+(* ---------------------------------------------------------------- the sudo root and the bank's blocked recipients *)
+
+(** who the sudo root is: an ordinary account (numbered by the driver) or the module account [name] *)
+Inductive root := RAcct (n : nat) | RMod (name : string).
+
+Definition mem (x : string) (l : list string) : bool := existsb (String.eqb x) l.
+
+(** x/bank BlockedAddr(root) under the blocked-recipient table [B] of the application wiring (module account names,
+    app/app_config.go BlockedModuleAccountsOverride): only module accounts are ever blocked *)
+Definition blocked (B : list string) (r : root) : bool :=
+  match r with RAcct _ => false | RMod m => mem m B end.
+
 (* ---------------------------------------------------------------- state *)
 
 (** a collections.Sequence: unset reads as DefaultSequenceStart *)
@@ -60,7 +79,8 @@ Record st := {
   s_params : params;
   s_period : option Z;       (* CurrentPeriod *)
   s_skipped : option Z;      (* NumSkippedEpochs *)
-  s_module : Z               (* unibi balance of the inflation module account *)
+  s_module : Z;              (* unibi balance of the inflation module account *)
+  s_root : root              (* x/sudo Sudoers.Root: the strategic-reserve recipient *)
 }.
 
 (** what one op does to the quantities the property talks about *)
@@ -70,7 +90,8 @@ Record out := {
   o_minted : Z;              (* change of the unibi supply *)
   o_staking : Z;             (* change of the fee collector balance *)
   o_community : Z;           (* change of the community pool *)
-  o_strategic : Z;           (* change of the sudo root balance *)
+  o_strategic : Z;           (* change of the sudo root balance (net of the staking / community / module change
+                                when the root IS the fee collector / distribution / inflation module account) *)
   o_module : Z;              (* inflation module balance afterwards *)
   o_period : Z;              (* CurrentPeriod.Peek afterwards *)
   o_skipped : Z              (* NumSkippedEpochs.Peek afterwards *)
@@ -86,13 +107,17 @@ Definition quiet (ok : bool) (s : st) : out :=
 Definition share (amt prop : Z) : Z := truncate_int (mul (amt * PREC) prop).
 
 (** MintCoins + AllocatePolynomialInflation on a module balance [m0]:
-    (staking, community, strategic, module balance afterwards, no error) *)
-Definition allocate (p : params) (m0 amt : Z) : Z * Z * Z * Z * bool :=
+    (staking, community, strategic, module balance afterwards, no error).
+    [recv]: the bank lets the sudo root receive (SendCoinsFromModuleToAccount checks BlockedAddr before
+    anything else, whatever the amount); when it does not, the mint, the staking transfer and the
+    community-pool funding have already happened and stay. *)
+Definition allocate (recv : bool) (p : params) (m0 amt : Z) : Z * Z * Z * Z * bool :=
   let m := m0 + amt in
   let stk := share amt (p_staking p) in
   if m <? stk then (0, 0, 0, m, false) else
   let cm := share amt (p_community p) in
   if m - stk <? cm then (stk, 0, 0, m - stk, false) else
+  if negb recv then (stk, cm, 0, m - stk - cm, false) else
   (stk, cm, m - stk - cm, 0, true).
 
 (** the roll-over test:  int64(e) - int64(epp*period) - int64(skipped) >= int64(epp) *)
@@ -100,7 +125,7 @@ Definition rollover (e epp period skipped : Z) : bool :=
   to_i64 epp <=? to_i64 (to_i64 (to_i64 e - to_i64 (wrap_u64 (epp * period))) - to_i64 skipped).
 
 Definition set_skipped (s : st) (v : Z) : st :=
-  {| s_params := s_params s; s_period := s_period s; s_skipped := Some v; s_module := s_module s |}.
+  {| s_params := s_params s; s_period := s_period s; s_skipped := Some v; s_module := s_module s; s_root := s_root s |}.
 
 (** [zp]: does the path "provision positive but below one unibi" panic?  On the pinned tree it does
     (hooks.go: the deferred telemetry closure calls IsInt64 on the nil Amount of the empty coins returned
@@ -110,7 +135,8 @@ Definition with_panic (b : bool) (o : out) : out :=
   {| o_ok := o_ok o; o_panic := b; o_minted := o_minted o; o_staking := o_staking o; o_community := o_community o;
      o_strategic := o_strategic o; o_module := o_module o; o_period := o_period o; o_skipped := o_skipped o |}.
 
-Definition after_epoch_end (zp : bool) (s : st) (day : bool) (e : Z) : st * out :=
+(** [recv] = the sudo root of [s] can receive *)
+Definition epoch_end (recv : bool) (zp : bool) (s : st) (day : bool) (e : Z) : st * out :=
   if negb day then (s, quiet true s) else
   let p := s_params s in
   if negb (p_enabled p) then
@@ -127,21 +153,28 @@ Definition after_epoch_end (zp : bool) (s : st) (day : bool) (e : Z) : st * out 
       let s' := {| s_params := p;
                    s_period := if rollover e (p_epp p) period (peek (s_skipped s))
                                then Some (wrap_u64 (period + 1)) else s_period s;
-                   s_skipped := s_skipped s; s_module := s_module s |} in
+                   s_skipped := s_skipped s; s_module := s_module s; s_root := s_root s |} in
       (s', with_panic zp (quiet true s'))
     else
-      let '(stk, cm, sr, m, ok) := allocate p (s_module s) amt in
+      let '(stk, cm, sr, m, ok) := allocate recv p (s_module s) amt in
       let s' := {| s_params := p;
                    s_period := if ok && rollover e (p_epp p) period (peek (s_skipped s))
                                then Some (wrap_u64 (period + 1)) else s_period s;
-                   s_skipped := s_skipped s; s_module := m |} in
+                   s_skipped := s_skipped s; s_module := m; s_root := s_root s |} in
       (s', {| o_ok := true; o_panic := false; o_minted := amt; o_staking := stk; o_community := cm; o_strategic := sr;
               o_module := m; o_period := peek (s_period s'); o_skipped := peek (s_skipped s') |}).
+
+Definition after_epoch_end (B : list string) (zp : bool) (s : st) (day : bool) (e : Z) : st * out :=
+  epoch_end (negb (blocked B (s_root s))) zp s day e.
 
 (* ---------------------------------------------------------------- sudo operations *)
 
 Definition set_params (s : st) (p : params) : st :=
-  {| s_params := p; s_period := s_period s; s_skipped := s_skipped s; s_module := s_module s |}.
+  {| s_params := p; s_period := s_period s; s_skipped := s_skipped s; s_module := s_module s; s_root := s_root s |}.
+
+(** MsgChangeRoot: Sudoers.Root := NewRoot (any address; the sender must be the current root) *)
+Definition set_root (s : st) (r : root) : st :=
+  {| s_params := s_params s; s_period := s_period s; s_skipped := s_skipped s; s_module := s_module s; s_root := r |}.
 
 Definition toggle_params (p : params) (b : bool) : params :=
   {| p_enabled := b; p_started := p_started p || b; p_factors := p_factors p;
@@ -177,11 +210,12 @@ Inductive op :=
 | EpochEnd (day : bool) (e : Z)            (* EpochsKeeper.AfterEpochEnd(ctx, id, e); day = (id == "day") *)
 | Toggle (auth : bool) (b : bool)          (* Sudo().ToggleInflation(ctx, b, sender); auth = sender is a sudoer *)
 | Edit (auth : bool) (ed : edit)           (* Sudo().EditInflationParams(ctx, msg, sender) *)
-| Fund (amt : Z).                          (* stray unibi minted into the inflation module account *)
+| Fund (amt : Z)                           (* stray unibi minted into the inflation module account *)
+| ChangeRoot (auth : bool) (r : root).     (* sudo MsgServer.ChangeRoot(sender, new root r); auth = sender is the current root *)
 
-Definition step (zp : bool) (s : st) (o : op) : st * out :=
+Definition step (B : list string) (zp : bool) (s : st) (o : op) : st * out :=
   match o with
-  | EpochEnd day e => after_epoch_end zp s day e
+  | EpochEnd day e => after_epoch_end B zp s day e
   | Toggle auth b => if auth then let s' := toggle s b in (s', quiet true s') else (s, quiet false s)
   | Edit auth ed =>
       if auth && valid (merge ed (s_params s))
@@ -189,13 +223,14 @@ Definition step (zp : bool) (s : st) (o : op) : st * out :=
       else (s, quiet false s)
   | Fund amt =>
       let s' := {| s_params := s_params s; s_period := s_period s; s_skipped := s_skipped s;
-                   s_module := s_module s + amt |} in
+                   s_module := s_module s + amt; s_root := s_root s |} in
       (s', {| o_ok := true; o_panic := false; o_minted := amt; o_staking := 0; o_community := 0; o_strategic := 0;
               o_module := s_module s'; o_period := peek (s_period s'); o_skipped := peek (s_skipped s') |})
+  | ChangeRoot auth r => if auth then let s' := set_root s r in (s', quiet true s') else (s, quiet false s)
   end.
 
-Fixpoint run (zp : bool) (s : st) (ops : list op) : st * list out :=
+Fixpoint run (B : list string) (zp : bool) (s : st) (ops : list op) : st * list out :=
   match ops with
   | [] => (s, [])
-  | o :: r => let '(s1, x) := step zp s o in let '(s2, xs) := run zp s1 r in (s2, x :: xs)
+  | o :: r => let '(s1, x) := step B zp s o in let '(s2, xs) := run B zp s1 r in (s2, x :: xs)
   end.
